@@ -289,8 +289,18 @@ theorem src_load_var_int_eq (k : Nat) (s : Py.SliceSt R) : viewR id (load_var_in
 
 theorem src_load_coins_eq (s : Py.SliceSt R) :
     viewR (fun (v : Nat) => (v : Int)) (load_coins s) = SOp.loadCoins (view s) := by
-  rw [show load_coins s = load_var_uint 4 s from rfl]
-  exact src_load_var_uint_eq 4 s
+  unfold load_coins SOp.loadCoins SOp.loadVarUint
+  simp only [bind_eq, pure_eq]
+  refine viewR_bindS _ _ _ _ _ _ _ (src_load_uint_eq 4 s) fun s1 len => ?_
+  by_cases h : len = 0
+  · have h1 : ¬ len ≠ 0 := by omega
+    have h2 : ((len : Nat) : Int) = 0 := by omega
+    rw [if_pos h2]; src_if; rfl
+  · have h1 : ¬ ¬ len ≠ 0 := by omega
+    have h2 : ¬ ((len : Nat) : Int) = 0 := by omega
+    rw [if_neg h2]; src_if; rw [bindS_ret, Int.toNat_natCast]
+    try rw [Nat.mul_comm 8 len]
+    exact src_load_uint_eq (len * 8) s1
 
 /-- the tail of a `preload_var_*`: the window `bits[:k + 8·len][k:]` read as a number -/
 theorem src_window (f : α → β) (conv : Bits → Option α) (conv' : Bits → Option β) (hc : ∀ bs, (conv bs).map f = conv' bs)
@@ -333,8 +343,18 @@ theorem src_preload_var_int_eq (k : Nat) (s : Py.SliceSt R) :
 
 theorem src_preload_coins_eq (s : Py.SliceSt R) :
     viewR (fun (v : Nat) => (v : Int)) (preload_coins s) = SOp.preloadCoins (view s) := by
-  rw [show preload_coins s = preload_var_uint 4 s from rfl]
-  exact src_preload_var_uint_eq 4 s
+  unfold preload_coins SOp.preloadCoins SOp.preloadVarUint
+  simp only [bind_eq, pure_eq]
+  refine viewR_bindS _ _ _ _ _ _ _ (src_preload_uint_eq 4 s) fun s1 len => ?_
+  by_cases h : len = 0
+  · have h1 : ¬ len ≠ 0 := by omega
+    have h2 : ((len : Nat) : Int) = 0 := by omega
+    rw [if_pos h2]; src_if; rfl
+  · have h1 : ¬ ¬ len ≠ 0 := by omega
+    have h2 : ¬ ((len : Nat) : Int) = 0 := by omega
+    rw [if_neg h2]; src_if; rw [Int.toNat_natCast]
+    try rw [Nat.mul_comm 8 len]
+    exact src_window _ Py.ba2intU? SOp.ba2intU ba2intU_eq (4 + len * 8) 4 s1
 
 /-! ### `preload_ref`, strings -/
 
